@@ -381,6 +381,44 @@ func compressedKeyShape(c *ctx, fn *ssa.Function) (bool, string) {
 		if !ok {
 			return false, "unrecognised construction of the compressed key: " + descr(v)
 		}
+		// third idiom (the append helper written out): append(append(make(0,33), format), paddedBytes(32, X.Bytes())...)
+		if b0, x0, isApp := appendOf(call); isApp {
+			if pc, isC := core.Strip(x0).(*ssa.Call); isC && core.Callee(pc) != nil && isModuleFn(core.Callee(pc)) && len(pc.Call.Args) == 2 {
+				if k, isK := core.ConstInt(pc.Call.Args[0]); !isK || k != 32 {
+					return false, "X is not padded to 32 bytes"
+				}
+				xt := core.TermOf(pc.Call.Args[1])
+				if xt.Op != "call:Bytes" || xt.Args[0].Key() != paramTerm(fn, 0).Key() {
+					return false, "the padded value is not X.Bytes()"
+				}
+				if ok3, why := rightAlignPost(core.Callee(pc)); !ok3 {
+					return false, why
+				}
+				b1, x1, okA := appendOf(b0)
+				if !okA {
+					return false, "the format byte is not the first byte"
+				}
+				if n, isK, isMk := core.MadeSlice(b1); !isMk || !isK || n != 0 {
+					return false, "the key buffer does not start empty"
+				}
+				segs, okS := core.SeqOf(x1)
+				if !okS || len(segs) != 1 {
+					return false, "the format byte is not a single byte"
+				}
+				w := core.NewDepWalker(fn, false)
+				w.Walk(segs[0].V)
+				for _, f := range core.FactsAt(call.Block()) {
+					if f.X != nil {
+						w.Walk(f.X)
+					}
+				}
+				if !w.Out["param:1"] {
+					// the parity may enter through a phi of the format value: control dependence is part of the walk
+					return false, "the format byte does not depend on the parity of Y"
+				}
+				continue
+			}
+		}
 		g := core.Callee(call)
 		if g == nil || !isModuleFn(g) || len(call.Call.Args) != 3 {
 			return false, "unrecognised construction of the compressed key: " + descr(v)
